@@ -48,6 +48,9 @@ pub enum Item {
     /// bit 0 an undecodable frame first, bit 1 a tick first, bit 2 a reply to a pid that never had a call first,
     /// bits 3-4 == 3: no answer at all (the call must time out and nothing else may be disturbed)
     Call(u8),
+    /// the local side takes registered name `name` away from its holder and, if `to` is given, registers it for that process
+    /// (a worker restarted under the same name): messages the peer sends to the name afterwards go to the new holder or nowhere
+    Rebind { name: u8, to: Option<u8> },
     // --- after any of these the connection must be gone ---
     OverLongLength(u32),
     CloseMidFrame(u8),
@@ -120,6 +123,8 @@ fn run_net(c: &Case) -> Result<Result<Outcome, String>, BedErr> {
         let mut p = connect_node(&bed, &node, u64::MAX, &trailer).await?;
         let never = ExternalPid::new(Atom::new("rust@127.0.0.1"), 999_999, 7, node.creation());
         let mut expected: Vec<Vec<Event>> = vec![vec![]; N_LIVE];
+        // which process holds the name proc<i> right now
+        let mut holder: Vec<Option<usize>> = (0..N_LIVE).map(Some).collect();
         let mut problems: Vec<(String, String)> = vec![];
         if c.eager && !wait_until(Duration::from_secs(5), || slog.lock().unwrap().iter().any(|e| *e == Event::Regular(eager.canon()))).await {
             problems.push(("receiver-stopped-or-message-lost".into(), "the message the peer sent in one piece with its handshake acknowledgement was never delivered".into()));
@@ -150,8 +155,8 @@ fn run_net(c: &Case) -> Result<Result<Outcome, String>, BedErr> {
                         None => "nobody_home".to_string(),
                     };
                     bytes = reg_send_frame(&remote_pid(1), &n, payload);
-                    if let Some(i) = name {
-                        expected[*i as usize % N_LIVE].push(Event::Regular(payload.clone()));
+                    if let Some(h) = name.and_then(|i| holder[i as usize % N_LIVE]) {
+                        expected[h].push(Event::Regular(payload.clone()));
                     }
                 }
                 Item::Exit { to, from, reason } => {
@@ -229,6 +234,22 @@ fn run_net(c: &Case) -> Result<Result<Outcome, String>, BedErr> {
                         if step == 15 {
                             let _ = p.write(&[0, 0, 0, 0]).await;
                             p.settle().await;
+                        }
+                    }
+                }
+                Item::Rebind { name, to } => {
+                    let ni = *name as usize % N_LIVE;
+                    let atom = Atom::new(format!("proc{ni}"));
+                    if holder[ni].take().is_some() {
+                        if let Err(e) = node.unregister(&atom).await {
+                            problems.push(("local-unregister-failed".into(), format!("item {idx}: {e}")));
+                        }
+                    }
+                    if let Some(t) = to {
+                        let t = *t as usize % N_LIVE;
+                        match node.register(atom, live[t].0.clone()).await {
+                            Ok(()) => holder[ni] = Some(t),
+                            Err(e) => problems.push(("local-register-failed".into(), format!("item {idx}: {e}"))),
                         }
                     }
                 }
@@ -448,6 +469,10 @@ pub fn oracle(c: &Case) -> Verdict {
     let burst = c.items.iter().any(|i| matches!(i, Item::Burst { .. }));
     Verdict::Pass(info.class_if(burst, "burst-beyond-mailbox-capacity").class_if(out.had_bad, "undecodable-frame").class_if(out.had_quiet, "quiet-period-with-ticks").class_if(out.fatal, "stream-closed-or-framing-broken")
             .class_if(c.items.iter().any(|i| matches!(i, Item::Call(k) if (*k >> 3) & 3 != 3)), "outstanding-call-answered")
+            .class_if(
+                matches!((c.items.iter().position(|i| matches!(i, Item::Rebind { .. })), c.items.iter().rposition(|i| matches!(i, Item::RegSend { name: Some(_), .. }))), (Some(r), Some(s)) if r < s),
+                "name-rebound-then-addressed",
+            )
             .class_if(c.items.iter().any(|i| matches!(i, Item::BadRun(_))), "run-of-bad-frames"))
 }
 
@@ -469,6 +494,7 @@ fn strategy() -> impl Strategy<Value = Case> {
         1 => (0u8..3, term()).prop_map(|(to, payload)| Item::LocalSend { to, payload }),
         1 => (0u8..3, any::<u16>()).prop_map(|(to, n)| Item::Burst { to, n }),
         2 => any::<u8>().prop_map(Item::Call),
+        2 => (0u8..3, prop::option::weighted(0.75, 0u8..3)).prop_map(|(name, to)| Item::Rebind { name, to }),
     ];
     let fatal = prop_oneof![any::<u32>().prop_map(Item::OverLongLength), any::<u8>().prop_map(Item::CloseMidFrame), Just(Item::Close)];
     (prop::collection::vec(item, 1..14), prop::option::weighted(0.4, fatal), prop_oneof![2 => Just(vec![]), 3 => prop::collection::vec(prop_oneof![Just(0u8), any::<u8>()], 1..6)], prop::bool::weighted(0.3)).prop_map(|(mut items, f, cuts, eager)| {
